@@ -6,6 +6,7 @@
    A history is any sequence ks of top-level calls in one interpreter, over any universe U of generators and
    any table T of generator bodies (nested calls, recursion, hand-on of a nested call's module);
    run_hist ... = Ok (st, ms) says that no call of the history raised. *)
+Require Import Hdl21.Model.C09SetName Hdl21.Proofs.C09SetNameProofs.
 Require Import Hdl21.Base.PyInt Hdl21.Model.ParamName Hdl21.Model.GenCache Hdl21.Model.C09GenFail Hdl21.Model.GenUniverse
                Hdl21.Proofs.ParamNameProofs Hdl21.Proofs.GenCacheProofs Hdl21.Proofs.NamingProofs
                Hdl21.Proofs.C09FailProofs Hdl21.Proofs.C09FailOnce Hdl21.Proofs.C09UnnameableProofs.
@@ -142,8 +143,10 @@ Print Assumptions C09_design_names_unique_partial.
    ===================================================================================================== *)
 
 (* 13. the cache key is the dict key: the lookup (hashes agree and the instances compare equal) succeeds for the
-       validated instances of two calls exactly when the calls have the same key.  ALL values. *)
+       validated instances of two calls exactly when the calls have the same key.  ALL hashable values (a list / dict / set
+       valued field has no hash: the lookup raises, theorems 35-37). *)
 Theorem C09_key_is_dict_lookup fs a1 a2 v1 v2 : validate_args fs a1 = Ok v1 -> validate_args fs a2 = Ok v2 ->
+  existsb has_mut v1 = false -> existsb has_mut v2 = false ->
   (lookup_hit v1 v2 = true <-> norm_args fs a1 = norm_args fs a2).
 Proof. exact (key_is_lookup fs a1 a2 v1 v2). Qed.
 Print Assumptions C09_key_is_dict_lookup.
@@ -151,6 +154,7 @@ Print Assumptions C09_key_is_dict_lookup.
 (* 14. name_value_only, keys: parameter instances that compare equal (params __eq__: Prefixed by value through
        Prefixed.__eq__, Decimal by value, nested classes field by field) have the same key, and conversely *)
 Theorem C09_key_is_eq fs a1 a2 v1 v2 : validate_args fs a1 = Ok v1 -> validate_args fs a2 = Ok v2 ->
+  existsb has_mut v1 = false -> existsb has_mut v2 = false ->
   fine_all v1 = true -> fine_all v2 = true ->
   (insts_eqb v1 v2 = true <-> norm_args fs a1 = norm_args fs a2).
 Proof. exact (key_is_eq fs a1 a2 v1 v2). Qed.
@@ -169,8 +173,13 @@ Theorem C09_equal_params_same_module U T suffix fuel ks st ms g G a1 a2 v1 v2 k1
   nth_error ms i = Some mi -> nth_error ms j = Some mj -> k1 = k2 /\ mi = mj.
 Proof.
   intros HG V1 V2 F1 F2 E K1 K2 H I J Mi Mj.
+  assert (forall a v k, validate_args (g_fields G) a = Ok v -> mk_key U (g, a) = Ok k -> existsb has_mut v = false) as NM.
+  { intros a v k Va Ka. unfold mk_key in Ka. cbn [fst snd] in Ka. rewrite HG in Ka.
+    destruct (norm_args (g_fields G) a) as [r|] eqn:N; simpl in Ka; [|discriminate].
+    apply norm_args_split in N. destruct N as [v' [Vv Cv]]. rewrite Va in Vv. inversion Vv. subst v'.
+    eapply canon_all_ok_no_mut; eassumption. }
   assert (k1 = k2) as ->.
-  { pose proof (proj1 (key_is_eq _ _ _ _ _ V1 V2 F1 F2) E) as N.
+  { pose proof (proj1 (key_is_eq _ _ _ _ _ V1 V2 (NM _ _ _ V1 K1) (NM _ _ _ V2 K2) F1 F2) E) as N.
     rewrite (mk_key_of_args U g G a1 a2 HG N) in K1. congruence. }
   split; [reflexivity|].
   exact (memo_same key key_eqb key_eqb_eq _ _ _ _ fuel ks st ms i j k2 mi mj H I J Mi Mj).
@@ -626,3 +635,122 @@ Example C09_ex_unnameable_nested :
   unique_name_f fs [VRec [VObj 3; VInt 1]; VNone] = Error EName /\ unique_name_f fs [VRec [VNone; VInt 1]; VObj 0] = Error EName /\
   norm_args fs [Some (VRec [VObj 3; VInt 1]); None] = Ok [VRec [VObj 3; VInt 1]; VNone].
 Proof. repeat split; vm_compute; reflexivity. Qed.
+
+(* =====================================================================================================
+   STRENGTHENING ROUND 3: parameter values WITHOUT A HASH (list / dict / set valued fields), and the text written for a
+   SET-valued parameter in interpreters that iterate over it in different orders.
+
+   What the unmodified tree must do with an unhashable parameter value.  The property demands "equal parameters -> the
+   identical Module, the body runs once".  The cache is a dict keyed by the call; a call whose parameters hold a list,
+   dict or set has no hash, so it can neither be found nor stored.  The tree raises TypeError at the lookup - the first
+   thing `run` does: nothing was pushed, the body does not run, no module is handed out - and does so again whenever the
+   call is repeated.  That keeps the property (no module, hence never two modules for equal parameters, never two
+   modules under one name).  Answering such a call is only admissible if the equal call gets the identical module;
+   running it un-cached (seeded change C09r3-C) gives a new module per call, all under the one name md5(JSON).
+   In the model: `validate` accepts `VMut` in a `DMut` field, `canon` refuses it, so the call has no key (`mk_key` fails)
+   and `model_hist` refuses it without touching the state.
+   ===================================================================================================== *)
+
+(* 35. a value has a cache key EXACTLY when it holds no unhashable container (any depth of nested param-classes) *)
+Theorem C09_key_only_without_container x y : canon x = Ok y -> has_mut x = false.
+Proof. exact (canon_ok_no_mut x y). Qed.
+Theorem C09_key_whenever_without_container d x : valid d x = true -> has_mut x = false -> exists y, canon x = Ok y.
+Proof. exact (canon_total d x). Qed.
+Print Assumptions C09_key_only_without_container.
+Print Assumptions C09_key_whenever_without_container.
+
+(* 36. a call whose validated parameters hold a list / dict / set anywhere has no key, whatever the universe *)
+Theorem C09_unhashable_call_has_no_key U g G a v :
+  nth_error U g = Some G -> validate_args (g_fields G) a = Ok v -> existsb has_mut v = true -> is_ok (mk_key U (g, a)) = false.
+Proof.
+  intros HG V M. unfold mk_key. cbn [fst snd]. rewrite HG.
+  destruct (norm_args (g_fields G) a) as [r|] eqn:N; [|reflexivity].
+  apply norm_args_split in N. destruct N as [v' [Vv Cv]]. rewrite V in Vv. inversion Vv. subst v'.
+  rewrite (canon_all_ok_no_mut _ _ Cv) in M. discriminate.
+Qed.
+Print Assumptions C09_unhashable_call_has_no_key.
+
+(* 37. REFUSED, AT EVERY POSITION OF EVERY HISTORY, WITHOUT A TRACE: for every storing policy, universe, table, history
+       `pre` made before and history `post` made after, a call without a key is refused, and the cache, the modules, the
+       body executions and the outcomes of all other calls are those of the history in which it was never made *)
+Lemma model_hist_skip pol U T c post : is_ok (mk_key U c) = false -> forall pre st,
+  fst (model_hist_p pol U T st (pre ++ c :: post)) = fst (model_hist_p pol U T st (pre ++ post)) /\
+  snd (model_hist_p pol U T st (pre ++ c :: post)) =
+    (firstn (List.length pre) (snd (model_hist_p pol U T st (pre ++ post))) ++ None ::
+     skipn (List.length pre) (snd (model_hist_p pol U T st (pre ++ post))))%list.
+Proof.
+  intros K. induction pre as [|p pre IH]; intros st.
+  - cbn [app List.length firstn skipn]. cbn [model_hist_p]. destruct (mk_key U c); [discriminate|]. split; reflexivity.
+  - cbn [app List.length]. cbn [model_hist_p]. destruct (mk_key U p) as [k|].
+    + destruct (run_cf pol U T st k) as [st' [m|e]]; destruct (IH st') as [A B]; cbn [fst snd firstn skipn]; rewrite A, B; split; reflexivity.
+    + destruct (IH st) as [A B]; cbn [fst snd firstn skipn]; rewrite A, B; split; reflexivity.
+Qed.
+
+Theorem C09_unhashable_call_always_refused pol U T g G a v pre post st :
+  nth_error U g = Some G -> validate_args (g_fields G) a = Ok v -> existsb has_mut v = true ->
+  let with_call := model_hist_p pol U T st (pre ++ (g, a) :: post) in
+  let without := model_hist_p pol U T st (pre ++ post) in
+  nth_error (snd with_call) (List.length pre) = Some None /\
+  fst with_call = fst without /\
+  snd with_call = (firstn (List.length pre) (snd without) ++ None :: skipn (List.length pre) (snd without))%list.
+Proof.
+  intros HG V M with_call without. subst with_call without.
+  destruct (model_hist_skip pol U T (g, a) post (C09_unhashable_call_has_no_key U g G a v HG V M) pre st) as [A B].
+  split; [|split; assumption].
+  assert (forall (l : list (option (key * nat))) n, List.length l = n -> forall t x, nth_error (l ++ x :: t)%list n = Some x) as L.
+  { induction l as [|y l IHl]; intros n Hn t x; subst n; [reflexivity|]. simpl. apply IHl. reflexivity. }
+  assert (forall cs st0, List.length (snd (model_hist_p pol U T st0 cs)) = List.length cs) as Len.
+  { induction cs as [|c0 cs IHc]; intros st0; [reflexivity|]. cbn [model_hist_p].
+    destruct (mk_key U c0) as [k|]; [destruct (run_cf pol U T st0 k) as [st' [m|e]]|]; cbn [snd List.length]; rewrite IHc; reflexivity. }
+  etransitivity; [apply (f_equal (fun l => nth_error l (List.length pre)) B)|]. cbv beta.
+  apply L. rewrite firstn_length, Len, app_length. apply Nat.min_l. apply Nat.le_add_r.
+Qed.
+Print Assumptions C09_unhashable_call_always_refused.
+
+Definition ex_MU : list gen :=
+  [ {| g_name := "Dac"; g_fields := [ {| f_name := "weights"; f_dtype := DMut; f_default := None |};
+                                      {| f_name := "k"; f_dtype := DInt; f_default := Some (VInt 1) |} ] |};
+    {| g_name := "N"; g_fields := [ {| f_name := "n"; f_dtype := DRec [DOpt DMut; DInt]; f_default := None |} ] |};
+    {| g_name := "H"; g_fields := [ {| f_name := "w"; f_dtype := DInt; f_default := Some (VInt 1) |} ] |} ].
+(* Dac(weights=[1,2,4]) three times, between answered calls; nested: N(n=R(None, 1)) has a key, N(n=R([..], 1)) has none *)
+Example C09_ex_unhashable_history :
+  let h := model_hist ex_MU [] init [(2%nat, [None]); (0%nat, [Some (VMut 0); None]); (0%nat, [Some (VMut 0); Some (VInt 1)]);
+                                     (1%nat, [Some (VRec [VNone; VInt 1])]); (1%nat, [Some (VRec [VMut 2; VInt 1])]);
+                                     (0%nat, [Some (VMut 0); None]); (2%nat, [Some (VInt 1)])] in
+  map (fun o => match o with Some (_, m) => Some m | None => None end) (snd h) = [Some 0; None; None; Some 1; None; None; Some 0]%nat /\
+  List.length (runs (fst h)) = 2%nat /\
+  validate_args (g_fields (gen_of ex_MU (0%nat, []))) [Some (VMut 0); None] = Ok [VMut 0; VInt 1].
+Proof. vm_compute. repeat split; reflexivity. Qed.
+
+(* ---------- set-valued parameters: the text hdl21_naming_encoder writes (Model/C09SetName.v) ---------- *)
+
+(* 38. ONE TEXT IN EVERY PROCESS: whatever order each set of a (nested) set value is iterated in - pi is ANY function
+       that returns a permutation of the list it is given - the JSON text written for the value is the same.  All values. *)
+Theorem C09_set_text_order_free pi : (forall l, Permutation.Permutation l (pi l)) -> forall v, enc (shuffle pi v) = enc v.
+Proof. exact (enc_shuffle pi). Qed.
+Print Assumptions C09_set_text_order_free.
+
+(* 39. one level, in terms of the member texts: two iterations that visit members with the same texts give one text *)
+Theorem C09_set_text_by_member_texts ms ms' :
+  Permutation.Permutation (map enc ms) (map enc ms') -> enc (SSet ms) = enc (SSet ms').
+Proof. exact (enc_set_perm ms ms'). Qed.
+Print Assumptions C09_set_text_by_member_texts.
+
+(* 40. REFUTED for `sorted(obj, key=str)` (seeded change C09r3-A): members with equal str() keep their iteration order,
+       and str() of a member that is a set is written in that set's iteration order *)
+Theorem C09_set_sorted_by_str_refuted :
+  exists pi, (forall l, Permutation.Permutation l (pi l)) /\
+    enc_by_str (shuffle pi (SSet [SInt 1; SStr "1"])) <> enc_by_str (SSet [SInt 1; SStr "1"]) /\
+    enc_by_str (shuffle pi (SSet [SSet [SStr "a"; SStr "z"]; SSet [SStr "m"]])) <> enc_by_str (SSet [SSet [SStr "a"; SStr "z"]; SSet [SStr "m"]]).
+Proof.
+  exists (@rev sval). split; [apply Permutation.Permutation_rev|]. split; vm_compute; discriminate.
+Qed.
+Print Assumptions C09_set_sorted_by_str_refuted.
+
+(* the texts themselves (also compared with json.dumps on every run, stream setenc) *)
+Example C09_ex_set_text :
+  enc (SSet [SSet [SStr "b"; SStr "a"]; SSet [SStr "c"]]) = "[""[\""\\\""a\\\""\"", \""\\\""b\\\""\""]"", ""[\""\\\""c\\\""\""]""]" /\
+  enc (SSet [SStr "1"; SInt 1]) = "[""\""1\"""", ""1""]" /\ enc (SSet []) = "[]" /\
+  enc (shuffle (@rev sval) (SSet [SSet [SStr "b"; SStr "a"]; SSet [SStr "c"]])) = enc (SSet [SSet [SStr "b"; SStr "a"]; SSet [SStr "c"]]) /\
+  enc_by_str (SSet [SInt 1; SStr "1"]) = "[1, ""1""]" /\ enc_by_str (SSet [SStr "1"; SInt 1]) = "[""1"", 1]".
+Proof. vm_compute. repeat split; reflexivity. Qed.
